@@ -6,7 +6,7 @@ from gen_http import Request, Header, Chunk
 
 HARNESS = "rx_driver"
 LEAN_MODULES = ["ViaProofs.C01"]
-LEMMA_MODULES = ['ViaProofs.Frag.Lines', 'ViaProofs.Frag.Headers', 'ViaProofs.Frag.Compose', 'ViaProofs.C05', 'ViaProofs.Trans.RL', 'ViaProofs.Trans.FL', 'ViaProofs.Trans.CH', 'ViaProofs.Trans.MH', 'ViaProofs.Trans.CK']
+LEMMA_MODULES = ['ViaProofs.Frag.Lines', 'ViaProofs.Frag.Headers', 'ViaProofs.Frag.Compose', 'ViaProofs.C05', 'ViaProofs.Trans.RL', 'ViaProofs.Trans.FL', 'ViaProofs.Trans.CH', 'ViaProofs.Trans.MH', 'ViaProofs.Trans.CK', 'ViaProofs.Trans.RQ', 'ViaProofs.Trans.RR']
 REQUIRED_THEOREMS = ['Via.C01_frag', 'Via.RR.receive_head_seq', 'Via.RR.receive_head_fail_seq', 'Via.RR.receive_body_seq', "Via.RR.feedHead_flatten'"]
 LEVEL = "proof"
 LEVEL_TEXT = ("PROOF (Lean 4) that the model of the server's read loop delivers the same requests for every partition of a byte string into reads (C01_frag, fragmentation laws for every parser) and parses well-formed requests correctly in one read; the model's parse_char / parse / message_headers::parse / rx_chunk::parse are PROVED equal to a translation of the current C++ regenerated on every run, the receive() decision logic is tied by differential correspondence (real request_receiver vs model) on generated requests x partitions with a by-construction oracle. Right level: the property quantifies over all messages x all partitions, which only induction reaches; the tie to the code is exact for the translated functions and sampled for receive().")
@@ -14,7 +14,7 @@ RULE = ("well-formed requests (hand-written feature set + random within each con
         "(whole, byte-wise, line-wise, every single cut, every pair of cuts for short messages, cuts at structural offsets, "
         "random k-cuts) x configurations (limits, STRICT_CRLF, container, chunk concatenation, HEAD translation); expected "
         "deliveries are computed from the message parts; non-trivial = more than one read; distinct = distinct (config, message, partition)")
-TRUSTED_BASE = ["tools/cxx2lean.py (translator of the parse_char / parse state machines and of message_headers::parse and rx_chunk::parse: RL, FL, CH from the current C++ into Lean; the model is proved equal to the translation in ViaProofs/Trans)", "Lean 4.33 kernel", "axioms: propext, Classical.choice, Quot.sound at most",
+TRUSTED_BASE = ["tools/cxx2lean.py + tools/cxx2lean_rx.py (translator of the parse_char / parse state machines, message_headers::parse, rx_chunk::parse, rx_request / rx_response::parse and request_receiver / response_receiver::receive + clear from the current C++ into Lean; the model is proved equal to the translation in ViaProofs/Trans; NOT translated and mapped by name to model functions: the header look-ups of message_headers (find, content_length, is_chunked, expect_continue, close_connection))", "Lean 4.33 kernel", "axioms: propext, Classical.choice, Quot.sound at most",
                 "rx_driver harness (real request_receiver driven like http_server::receive_handler) + via_model driver",
                 "std::string / std::vector<char> / unordered_map modelled as lists / association lists"]
 ASSUMPTIONS = ["the per-read loop of rx_driver is the loop of http_server::receive_handler with an application that answers inside "
